@@ -127,8 +127,8 @@ def gen_cases(rng, tier):
     for plat in PLATS:
         if plat == "windows":
             continue
-        names = list(_P.FE_NAMES[:4] if tier == "quick" else _P.FE_NAMES)
-        for _ in range(3 if tier == "quick" else 20):
+        names = list(_P.FE_NAMES[:3] if tier == "quick" else _P.FE_NAMES)
+        for _ in range(2 if tier == "quick" else 20):
             n = rng.choice([14, 15, 15, 16, 20])
             kn = "".join(rng.choice("abcdefgh-_k") for _ in range(n))
             ext = rng.choice(["", "d", "-daemon", "/x"])
@@ -138,8 +138,8 @@ def gen_cases(rng, tier):
             for mode in ("call", "skip", "fail"):
                 for meth, err, st in _P.FE_GRID:
                     site = _P.FE_METHODS[meth].get(plat)
-                    if site is None:
-                        continue
+                    if site is None or (tier == "quick" and meth in ("cwd", "num_fds", "environ")):
+                        continue        # (C20_frontend_cached_name_rows covers the whole grid on every run)
                     cases.append({"kind": "fename", "cls": "fename-%s-%s" % (plat, mode), "plat": plat, "kname": kn, "cmd0": c0,
                                   "mode": mode, "femeth": meth, "meth": _P.FE_PLAT_METH.get(meth, meth),
                                   "site": "" if meth == "wait" else site, "err": err or "ESRCH", "state": st})
@@ -651,7 +651,8 @@ MANIFEST = {
             "second route fails: Windows proc_info fall-backs, Windows cmdline PEB/non-PEB, Solaris cred/psinfo), for ERROR_PARTIAL_COPY retried "
             "k times for every k, for wait(0) (TimeoutExpired with pid and name while the PID is listed), for every native call of the method failing "
             "at once, and for double faults in the translation path (the call fails with e1, the follow-up probes is_zombie / pid_exists / pids "
-            "with an independent e2: the outcome lies in the acceptable set, never a bare OSError for a no-such-process or permission failure). Excluded and refuted: a PID 0 the OS "
+            "with an independent e2: the outcome lies in the acceptable set, never a bare OSError for a no-such-process or permission failure); and "
+            "for every history through the front end the exception of a failing call carries the name that name() last returned. Excluded and refuted: a PID 0 the OS "
             "does not list is taken to exist (Solaris, NetBSD cmdline). Legacy variants of the model (before fixes a2d103c, d6fc959, 0a57bb9) are "
             "refuted. Tables "
             "regenerated from the code on every run (finite forallb facts lifted with forallb_forall): every probed outcome of every (platform, "
@@ -660,7 +661,8 @@ MANIFEST = {
             "every documented method -- including the list/dict/row answers cmdline, environ, open_files, net_connections, threads, memory_maps -- "
             "fills its documented tuple from the matching native slots; documented names, Process methods and the field lists of the system-wide "
             "named tuples (regression table, beyond the property text) are exposed per platform; "
-            "net_if_addrs() rows equal the model, whose Windows broadcast is addr | hostbits for every address and prefix (IPv4 netmask in address "
+            "histories [name() called / not called / failing, then a failing method] through the real psutil.Process of a copy of the package over each "
+            "POSIX stub layer carry pid and the returned name; net_if_addrs() rows equal the model, whose Windows broadcast is addr | hostbits for every address and prefix (IPv4 netmask in address "
             "form; IPv6 netmask in address form; IPv4/IPv6 netmask as prefix length) and whose MAC padding yields six "
             "octets. The same stub layer drives the real modules over the whole space on every run, comparing implementation, model and contract.",
     "note": "Trusted: Coq kernel + vm_compute; stub native layer and translator (props/_c20_stub.py, props/_c20_probe.py); the documented-"
